@@ -300,6 +300,13 @@ if __name__ == "__main__":
     budget = 40 if tier == "quick" else len(combos)
     part = int(sys.argv[7]) if len(sys.argv) > 7 else 0
     nparts = int(sys.argv[8]) if len(sys.argv) > 8 else 1
+    # always: pairs of notifications (and notification + call) handed to a pool of one / two workers, both baselines
+    N = [k for k in K if k["valid"] and k["notif"]]
+    Cc = [k for k in K if k["valid"] and not k["notif"]]
+    always = [("2", [a, b], nw) for a in N for b in N + Cc[:1] for nw in (1, 2)]
+    for (sv, kinds, nw) in always[part::nparts]:
+        traces += explore(sv, kinds, nw, bound, maxruns, rnd, policy="high")
+        traces += explore(sv, kinds, nw, bound, maxruns, rnd, policy="low")
     for (sv, kinds, nw) in combos[:budget][part::nparts]:
         traces += explore(sv, kinds, nw, bound, maxruns, rnd)
         if nw:
